@@ -809,6 +809,26 @@ func TestEngineCrypto(t *testing.T) {
 		if err != nil || !bytes.Equal(got, want) {
 			p.Oracle("C19-cpc-typed-digest", "StakingMessage amount=%s: x/cpc digest %x (%v), independent EIP-712 digest %x", amount, got, err, want)
 		}
+		{ // the domain binds the chain id as a uint256: every EIP-155 id a chain can have (x/evm keeps it as a 64-bit number,
+			// the typed-data domain takes any), also beyond the int64 range
+			two := func(k uint) *big.Int { return new(big.Int).Lsh(big.NewInt(1), k) }
+			cid := hx.Pick(r, []*big.Int{big.NewInt(1), big.NewInt(9001), new(big.Int).Sub(two(63), big.NewInt(1)), two(63), new(big.Int).Add(two(63), big.NewInt(90909)),
+				new(big.Int).Sub(two(64), big.NewInt(1)), new(big.Int).Add(two(64), big.NewInt(7)), new(big.Int).Add(two(200), big.NewInt(5))})
+			wantC := indep(msg, cid)
+			gotC, errC := cpceip712.EIP712HashingTypedMessage(&msg, cid)
+			sigC, _ := crypto.Sign(wantC, key)
+			var rc, sc [32]byte
+			copy(rc[:], sigC[:32])
+			copy(sc[:], sigC[32:64])
+			okC, _, errV := cpceip712.VerifySignature(signer.GetEthAddress(), &msg, rc, sc, sigC[64], cid)
+			p.Count(fmt.Sprintf("cpc-typed-chain-id:bits=%d", cid.BitLen()))
+			if errC != nil || !bytes.Equal(gotC, wantC) || !okC || errV != nil {
+				p.Oracle("C11-typed-message-chain-id", "chain id %s: x/cpc digest %x (%v), independent EIP-712 digest %x; honest signature for that chain verifies=%v (%v)", cid, gotC, errC, wantC, okC, errV)
+			}
+			if bytes.Equal(gotC, got) && cid.Cmp(c.chainID) != 0 {
+				p.Oracle("C11-typed-message-chain-id", "chain id %s and %s give the same StakingMessage digest", cid, c.chainID)
+			}
+		}
 		sig, _ := crypto.Sign(want, key)
 		var rr, ss [32]byte
 		copy(rr[:], sig[:32])
